@@ -267,6 +267,7 @@ def run(ctx):
 
     # ------------------------------------------------ generic family
     batch = []
+    dom_batch = []      # (case, python in_domain, implementation round trip ok, request) for the theorem's domain
     for i in range(n_triples):
         rowlib.clear_cache()
         t = rowgen.gen_model(rng, rng.choice([0, 1, 1, 2, 2, 3]), "M", root=True)
@@ -314,6 +315,11 @@ def run(ctx):
                 ev = rowlib.e_value(t, val)
             except rowlib.Unsupported:
                 continue
+            if not X:
+                rt_ok = un[0] == "ok" and back[0] == "ok" and _deep_eq(back[1], val)
+                dom_batch.append((dict(model=_show_ty(t), value=val, targets=T), dom, rt_ok,
+                                  dict(fn="generic", ty=_jsonable_ty(t), value=val, targets=T, excluded=X),
+                                  f"(107 6 {rm} {ev} {rowlib.e_strs(T)})"))
             reqs = [f"(107 2 {rm} {ev} {rowlib.e_strs(T)} {rowlib.e_strs(X)})"]
             if un[0] == "ok":
                 reqs.append(f"(107 1 {rm} {rowlib.e_cells(un[1])})")
@@ -330,8 +336,15 @@ def run(ctx):
         if m and (len(batch) >= 400 or i == n_triples - 1):
             flush_generic(ctx, m, batch, stats)
             batch = []
+            flush_domain(ctx, m, dom_batch, stats)
+            dom_batch = []
     if m and batch:
         flush_generic(ctx, m, batch, stats)
+    if m and dom_batch:
+        flush_domain(ctx, m, dom_batch, stats)
+
+    # ------------------------------------------------ the witnesses of the _refuted theorems, on the implementation
+    probe_refutations(ctx, stats)
 
     # ------------------------------------------------ matches_headers on its own
     if m:
@@ -376,6 +389,76 @@ def run(ctx):
         "pydantic-v1 construction modelled on the trees the parser can produce (defaults filled, None rejected below the top level)",
         "tablib/openpyxl/csv are not modelled: the file legs are oracle-only",
     ]
+
+
+def flush_domain(ctx, m, dom_batch, stats):
+    """The domain of the Coq theorem C07_row_roundtrip (row_dom, evaluated by the extracted model)
+    against the domain the oracle is written from (rowgen.in_domain, from the property text):
+    the theorem must cover every case the oracle counts as in-domain; and wherever the theorem
+    applies the implementation must round-trip (theorem + correspondence => implementation)."""
+    outs = ask_all(m, [d[4] for d in dom_batch])
+    for (case, pydom, rt_ok, rep, _), o in zip(dom_batch, outs):
+        if o not in ("0", "1"):
+            ctx.disagree("row_dom: model could not decode the request", case, o, pydom)
+            continue
+        thm = o == "1"
+        stats["theorem_domain"] = stats.get("theorem_domain", 0) + thm
+        if pydom and not thm:
+            ctx.disagree("the theorem's domain (row_dom) does not cover a case the oracle counts as representable+admissible",
+                         case, "row_dom=false", "in_domain=true")
+        if thm and not pydom:
+            stats["theorem_domain_beyond_oracle"] = stats.get("theorem_domain_beyond_oracle", 0) + 1
+        if thm and not rt_ok:
+            ctx.v.failing_input("generic-roundtrip",
+                                f"inside the proved domain (row_dom) the implementation does not round-trip: {case!r}", rep)
+
+
+# the instances of Row/RefuteFacts.v: (key, type, value, targets, cells the theorem states, instance read back or None)
+def _refutation_witnesses():
+    from rowlib import STR, BOOL
+    sub = ("model", "Sub", [("x", STR, "")], {}, {})
+    m1 = ("model", "M", [("a", STR, ""), ("l", ("list", sub), [])], {}, {})
+    sub2 = ("model", "Sub2", [("f", BOOL, True), ("a", STR, "x")], {}, {})
+    m2 = ("model", "M2", [("k", STR, ""), ("s", sub2, {"f": True, "a": "x"})], {}, {})
+    m4 = ("model", "M4", [("l", ("list", sub), [])], {}, {})
+    return [
+        ("all_default_in_list", m1, {"a": "q", "l": [{"x": ""}]}, [], [("a", "q")], {"a": "q", "l": []}),
+        ("packed_blank", m2, {"k": "q", "s": {"f": True, "a": ""}}, ["s"], [("k", "q"), ("s", "a;|")],
+         {"k": "q", "s": {"f": True, "a": "x"}}),
+        ("packed_blank_spread_ok", m2, {"k": "q", "s": {"f": True, "a": ""}}, [], [("k", "q"), ("s.a", "")],
+         {"k": "q", "s": {"f": True, "a": ""}}),
+        ("packing_limit", m4, {"l": [{"x": "q"}]}, ["l"], None, None),
+    ]
+
+
+def probe_refutations(ctx, stats):
+    """Replays the witnesses of C07_*_refuted on the real RowParser: the implementation must do
+    what the theorems say the model does.  The one witness that lies inside the domain of the
+    property TEXT (a blank value under a non-blank default in a packed model) is a failing
+    input of the property (known finding)."""
+    for (name, t, val, T, cells, back_want) in _refutation_witnesses():
+        rowlib.clear_cache()
+        ctx.v.coverage["evaluations"] += 1
+        stats["refutation_witnesses"] = stats.get("refutation_witnesses", 0) + 1
+        try:
+            parser, inst, un, back = impl_case(t, val, T, [])
+        except Exception as e:
+            ctx.disagree("refutation witness could not be built", name, "theorem", repr(e))
+            continue
+        if cells is None:
+            if un[0] == "ok":
+                ctx.disagree("refutation witness: the theorem says unparse_row fails", name, "Err EJoin", un)
+            continue
+        if un[0] != "ok" or un[1] != cells:
+            ctx.disagree("refutation witness: cells", name, cells, un)
+            continue
+        if back[0] != "ok" or not _deep_eq(back[1], back_want):
+            ctx.disagree("refutation witness: instance read back", name, back_want, back)
+            continue
+        if name == "packed_blank":
+            ctx.v.failing_input("packed-model-blank-value-under-nonblank-default",
+                                f"model={_show_ty(t)} value={val!r} targets={T} -> cells={cells} -> back={back[1]!r}",
+                                dict(fn="generic", ty=_jsonable_ty(t), value=val, targets=T, excluded=[]))
 
 
 def flush_generic(ctx, m, batch, stats):
